@@ -59,7 +59,7 @@ type csWorld struct {
 	lastDisc *mockchain.Block
 }
 
-func replayChainSync(idx int, line []byte, seed int, root string, rep *common.Report) {
+func replayChainSync(idx int, line []byte, prop string, seed int, root string, rep *common.Report) {
 	var tr csTrace
 	if err := json.Unmarshal(line, &tr); err != nil {
 		rep.AddError("trace %d: %v", idx, err)
@@ -77,7 +77,11 @@ func replayChainSync(idx int, line []byte, seed int, root string, rep *common.Re
 		if step >= 0 && step < len(tr.Steps) {
 			last = tr.Steps[step].Op
 		}
-		m := common.Mismatch{Prop: "C15", Sig: fmt.Sprintf("chainsync:%s:%s", class, last), Trace: idx, Step: step,
+		// C02 (wallet-level pass) owns the status of transactions across reorgs; tip and hashes are C15's
+		if prop == "C02" && class != "tx" {
+			return
+		}
+		m := common.Mismatch{Prop: prop, Sig: fmt.Sprintf("chainsync:%s:%s", class, last), Trace: idx, Step: step,
 			What: what, Observed: obs, Expected: exp}
 		cut := tr
 		if step >= 0 && step+1 < len(tr.Steps) {
